@@ -86,7 +86,17 @@ pub fn make_case(prop: &str, run_seed: u64, index: u64, tier: &str) -> Case {
         }
         return crate::seq::gen_seq(&mut rng, 40);
     }
-    let p = gen::profile_for(prop);
+    let mut p = gen::profile_for(prop);
+    if tier == "thorough" {
+        // the thorough tier also explores larger programs: more operations per task, up to three tasks per side
+        p.ops.1 += 3;
+        if p.senders.1 >= 2 {
+            p.senders.1 = 3;
+        }
+        if p.receivers.1 >= 2 {
+            p.receivers.1 = 3;
+        }
+    }
     gen::gen_case(&mut rng, &p)
 }
 
